@@ -130,7 +130,7 @@ inline void onTerminate()
    std::string msg;
    try { auto e = std::current_exception(); if(e) std::rethrow_exception(e); }
    catch(const std::exception& e) { msg = std::string("exception: ") + e.what(); for(char& c : msg) if(c == '"' || c == '\\' || c < 0x20) c = ' '; w = msg.c_str(); }
-   catch(...) { w = "unknown exception"; }
+   catch(...) { w = "unknown exception (not derived from std::exception, e.g. soplex::SPxException)"; }
    crashLine(w); _exit(0);
 }
 inline void installCrashHandlers()
